@@ -14,11 +14,12 @@ type has a reference layout at all (`wf`: the property's grid — half/int/uint/
 1–4, 32-bit enums, arrays of ≥ 1 element, structs (empty ones included), nested to any depth) and, for the
 "no unknown size" / completeness statements, that the two reference sizes fit in `u32`.
 
-Fix batch 2 (/repo 24ea36f, c062f2e, d99f90e, d25724e): sizes beyond 32 bits are "unknown size" instead of a
-panic (`check_never_panics`), a typed load that still depends on a template parameter is skipped, arrays of
-structured buffers are collected (the former witness `buffer_arrays_not_validated` is now the positive
-`property_uses_collected_partial`; one shape is still missed: `typedef_buffer_array_not_validated`), an empty
-struct has its Metal byte (the former witness `empty_struct_unsound` is now covered by `check_sound_full`).
+Fix batch 2 (/repo 24ea36f, c062f2e, d99f90e + bdddd35, d25724e): sizes beyond 32 bits are "unknown size" instead
+of a panic (`check_never_panics`), a typed load that still depends on a template parameter is skipped, arrays of
+structured buffers are collected whatever modifiers sit between the array layers (the former witnesses
+`buffer_arrays_not_validated` and, for the shape d99f90e alone still missed, `typedef_buffer_array_not_validated`
+are now the positive `property_uses_collected_partial`), an empty struct has its Metal byte (the former witness
+`empty_struct_unsound` is now covered by `check_sound_full`).
 
 History: on the tree before /repo commit 0414772 the statements `check_sound` and `reported_sizes_true`
 were false (`{struct{float2;float}; float}` accepted with 16 vs 24 bytes, `{half; half2; float}` accepted
@@ -182,7 +183,7 @@ def rawBufferObjects : List String := ["ByteAddressBuffer", "RWByteAddressBuffer
     structure is a structured buffer (and then matched by `check_layout`) or one of the two kinds the property
     does not name; every object method templated on a type `T` is a load / store of a raw buffer or buffer
     address and its intrinsic is matched by `check_layout`; nothing else is matched; the global loop looks below
-    a modifier, then below array layers, then below one more modifier (since /repo d99f90e); the function loop
+    a modifier, then below every array layer and a modifier after each (since /repo d99f90e + bdddd35); the function loop
     skips type arguments that depend on a template parameter (since /repo c062f2e); both de-duplicate by type id
     and take the single type argument. -/
 theorem collection_sites_covered :
@@ -193,7 +194,7 @@ theorem collection_sites_covered :
     (∀ i ∈ checkedIntrinsics, ∃ t ∈ typedMethods, t.2.2.1 = i) ∧
     (∀ o ∈ checkedObjects, o ∈ propertyObjects) ∧
     globalLoopStripsModifier = true ∧ globalLoopStripsArray = true ∧
-    globalPeelOps = [.removeModifier, .nonArray, .removeModifier] ∧ fnLoopSkipsDependent = true ∧
+    globalPeelOps = [.removeModifier, .whileArrayRemoveModifier] ∧ fnLoopSkipsDependent = true ∧
     dedupByTypeId = true ∧ fnLoopOneTypeArgument = true := by
   decide
 
@@ -217,66 +218,66 @@ def bufferElem : GTy → Option (String × TyRef)
   | .array t => bufferElem t
   | _ => none
 
-/-- `Object(k<r>)` or `Modifier(Object(k<r>))` -/
-inductive Elem (k : String) (r : TyRef) : GTy → Prop
-  | obj : Elem k r (.object k (some r))
-  | mod : Elem k r (.modifier (.object k (some r)))
+def isModifier : GTy → Bool
+  | .modifier _ => true
+  | _ => false
 
-/-- zero or more `Array` layers above that: `T g`, `T g[a]`, `T g[a][b]`, … -/
-inductive ArrOf (k : String) (r : TyRef) : GTy → Prop
-  | base {t : GTy} (h : Elem k r t) : ArrOf k r t
-  | arr {t : GTy} (h : ArrOf k r t) : ArrOf k r (.array t)
+/-- no `Modifier` layer directly on a `Modifier` layer: an invariant of the type registry (`combine_modifier` asserts
+    that the type it qualifies is not qualified already) -/
+def unstacked : GTy → Bool
+  | .modifier t => !isModifier t && unstacked t
+  | .array t => unstacked t
+  | _ => true
 
-/-- … optionally below one more `Modifier`: the shapes of a buffer global with a *directly written* buffer type
-    (an extern global's base type is made `const` before the declarator's dimensions are applied) -/
-inductive Direct (k : String) (r : TyRef) : GTy → Prop
-  | plain {t : GTy} (h : ArrOf k r t) : Direct k r t
-  | mod {t : GTy} (h : ArrOf k r t) : Direct k r (.modifier t)
+/-- the loop `while let Array(inner, _) = layer(ty) { ty = remove_modifier(inner); }` reaches the buffer object below
+    any interleaving of `Array` and (unstacked) `Modifier` layers -/
+theorem whileArray_bufferElem {k : String} {r : TyRef} : ∀ t : GTy, unstacked t = true → isModifier t = false →
+    bufferElem t = some (k, r) → whileArray t = .object k (some r)
+  | .object k' (some r'), _, _, h => by
+    simp only [bufferElem, Option.some.injEq, Prod.mk.injEq] at h
+    obtain ⟨rfl, rfl⟩ := h; rfl
+  | .object _ none, _, _, h => by simp [bufferElem] at h
+  | .other, _, _, h => by simp [bufferElem] at h
+  | .modifier _, _, hm, _ => by simp [isModifier] at hm
+  | .array (.modifier v), hu, _, h => by
+    simp only [unstacked, Bool.and_eq_true, Bool.not_eq_true'] at hu
+    simp only [bufferElem] at h
+    simp only [whileArray]
+    exact whileArray_bufferElem v hu.2 hu.1 h
+  | .array (.object a b), _, _, h => by
+    simp only [bufferElem] at h
+    simp only [whileArray]
+    exact whileArray_bufferElem (.object a b) rfl rfl h
+  | .array (.array u), hu, _, h => by
+    simp only [unstacked] at hu
+    simp only [bufferElem] at h
+    have : whileArray (.array (.array u)) = whileArray (.array u) := by simp only [whileArray]
+    rw [this]
+    exact whileArray_bufferElem (.array u) (by simpa only [unstacked] using hu) rfl (by simpa only [bufferElem] using h)
+  | .array .other, _, _, h => by simp [bufferElem] at h
 
-theorem removeModifier_elem {k : String} {r : TyRef} {t : GTy} (h : Elem k r t) :
-    removeModifier t = .object k (some r) := by
-  cases h <;> rfl
-
-theorem nonArray_arrOf {k : String} {r : TyRef} {t : GTy} (h : ArrOf k r t) : Elem k r (nonArray t) := by
-  induction h with
-  | base h => cases h <;> exact (by first | exact .obj | exact .mod)
-  | arr _ ih => exact ih
-
-theorem removeModifier_arrOf {k : String} {r : TyRef} {t : GTy} (h : ArrOf k r t) :
-    ArrOf k r (removeModifier t) := by
-  cases h with
-  | base h => cases h <;> exact .base .obj
-  | arr h => exact .arr h
-
-/-- the global loop's three peeling statements reach the buffer object of every `Direct` shape -/
-theorem peel_direct {k : String} {r : TyRef} {t : GTy} (h : Direct k r t) :
-    peel globalPeelOps t = .object k (some r) := by
-  show removeModifier (nonArray (removeModifier t)) = _
-  cases h with
-  | plain h => exact removeModifier_elem (nonArray_arrOf (removeModifier_arrOf h))
-  | mod h => exact removeModifier_elem (nonArray_arrOf h)
-
-theorem direct_bufferElem {k : String} {r : TyRef} {t : GTy} (h : Direct k r t) : bufferElem t = some (k, r) := by
-  have he : ∀ u, Elem k r u → bufferElem u = some (k, r) := by
-    intro u hu; cases hu <;> rfl
-  have ha : ∀ u, ArrOf k r u → bufferElem u = some (k, r) := by
-    intro u hu
-    induction hu with
-    | base h => exact he _ h
-    | arr _ ih => exact ih
-  cases h with
-  | plain h => exact ha _ h
-  | mod h => simp only [bufferElem]; exact ha _ h
+/-- the global loop's peeling statements reach the buffer object of every global that is a structured buffer or an
+    array of structured buffers, however `Array` and `Modifier` layers interleave (since /repo bdddd35) -/
+theorem peel_bufferElem {k : String} {r : TyRef} {t : GTy} (hu : unstacked t = true)
+    (h : bufferElem t = some (k, r)) : peel globalPeelOps t = .object k (some r) := by
+  show whileArray (removeModifier t) = _
+  cases t with
+  | modifier v =>
+    simp only [unstacked, Bool.and_eq_true, Bool.not_eq_true'] at hu
+    simp only [bufferElem] at h
+    exact whileArray_bufferElem v hu.2 hu.1 h
+  | object a b => exact whileArray_bufferElem (.object a b) hu rfl h
+  | array u => exact whileArray_bufferElem (.array u) hu rfl h
+  | other => simp [bufferElem] at h
 
 /-- a use of the type `r` that the property names: the element type of a global (RW)StructuredBuffer or of a
-    global array (of any dimensions) of them, or the type argument of an instantiated typed load / store of a raw
-    buffer or buffer address.  *Narrower than the property's words* in two ways: the buffer type must be written
-    directly (`Direct`; an array of a typedef'd array of buffers, `Array(Modifier(Array(Object)))`, is a buffer
-    array too — `bufferElem` — but the loop misses it: `typedef_buffer_array_not_validated`), and a buffer that
-    is a member of a global struct is not expressible (`GTy.other`; known finding `accepted/site-sbmem`). -/
+    global array of them — any dimensions, typedef'd or not, `Modifier` layers anywhere between (`bufferElem`; the
+    registry's invariant `unstacked`) — or the type argument of an instantiated typed load / store of a raw buffer or
+    buffer address.  *Narrower than the property's words* in one way: a buffer that is a member of a global struct is
+    not expressible (`GTy.other`; it is not collected: known finding `accepted/site-sbmem`). -/
 inductive PropertyUse (m : Module) (r : TyRef) : Prop
   | buffer (g : Global) (hg : g ∈ m.globals) (k : String) (hk : k ∈ propertyObjects)
-      (h : Direct k r g.ty)
+      (h : bufferElem g.ty = some (k, r)) (hs : unstacked g.ty = true)
   | access (f : Fn) (hf : f ∈ m.fns) (t : String × String × String × Nat) (ht : t ∈ typedMethods)
       (hi : f.intrinsic = some t.2.2.1) (ha : f.template = some [.type r])
 
@@ -303,8 +304,8 @@ theorem wf_not_dependent : ∀ t : Ty, wf t = true → isDependent t = false
 theorem propertyUse_matched (m : Module) (r : TyRef) (h : PropertyUse m r) (hd : isDependent r.ty = false) :
     Matched m r := by
   cases h with
-  | buffer g hg k hk h =>
-    refine Or.inl ⟨g, hg, k, peel_direct h, ?_⟩
+  | buffer g hg k hk h hs =>
+    refine Or.inl ⟨g, hg, k, peel_bufferElem hs h, ?_⟩
     have := (collection_sites_covered.2.1 k hk).1
     simpa using this
   | access f hf t ht hi ha =>
@@ -312,10 +313,10 @@ theorem propertyUse_matched (m : Module) (r : TyRef) (h : PropertyUse m r) (hd :
     have := (collection_sites_covered.2.2.1 t ht).2
     simpa using this
 
-/-- **Every use the property names is collected** (partial: see `PropertyUse` for the two classes of use that are
+/-- **Every use the property names is collected** (partial: see `PropertyUse` for the one class of use that is
     missing): the type id of a concrete type (one that does not depend on a template parameter — a load inside a
-    template is a use only once the template is instantiated) is among `types_to_check`.  Since /repo d99f90e this
-    includes the element type of every directly declared array of structured buffers. -/
+    template is a use only once the template is instantiated) is among `types_to_check`.  Since /repo d99f90e +
+    bdddd35 this includes the element type of every array of structured buffers. -/
 theorem property_uses_collected_partial (m : Module) (l : List Entry) (h : collect m = .ok l) (r : TyRef)
     (hu : PropertyUse m r) (hd : isDependent r.ty = false) : ∃ e ∈ l, e.ref.id = r.id := by
   rcases propertyUse_matched m r hu hd with ⟨g, hg, hh⟩ | ⟨f, hf, hh⟩
@@ -367,31 +368,27 @@ theorem check_layout_reports_true_sizes (m : Module) (i : Nat) (lh lm : Layout)
 private def sF : Ty := .struct (Tys.ofList [.scalar .Float32, .vec .Float32 2])
 private def sG : Ty := .struct (Tys.ofList [.scalar .Float32, .scalar .Float32])
 
-/-- **The collection is still incomplete (negation witness).**  An array of a *typedef'd array* of structured
-    buffers — `typedef StructuredBuffer<S> A[2]; A g[3];`, whose type is `Array(Modifier(const, Array(Object)))` because
-    the `const` of an extern global lands between the two array layers — is a structured-buffer array
-    (`bufferElem`), but `get_non_array_id` stops at the modifier: the module is accepted although the element
-    structure is 12 bytes under HLSL packing and 16 under Metal.  (Replayed on the real compiler by
-    `C19.prog vk:np:0 {f f2} sbarrtd@0`; known finding `accepted/site-sbarr-typedef`.  The plain arrays of the former
-    witness `buffer_arrays_not_validated` are rejected now, see the next example.) -/
-theorem typedef_buffer_array_not_validated :
-    checkLayout ⟨[⟨.array (.modifier (.array (.object "StructuredBuffer" (some ⟨0, sF⟩)))), "g"⟩], []⟩ = .ok ∧
-    (bufferElem (.array (.modifier (.array (.object "StructuredBuffer" (some ⟨0, sF⟩)))))).map
-      (fun p => (p.1, p.2.id)) = some ("StructuredBuffer", 0) ∧
-    wf sF = true ∧ ¬ Agree sF := by
-  decide
-
-/-- the former witness turned positive: arrays of structured buffers (as the model saw them then, and as the type
-    checker really builds them: `Array(Modifier(const, Object))`), of one and two dimensions, also a typedef'd array
-    declared without further dimensions, are rejected with the true sizes -/
+/-- the former witnesses turned positive.  `buffer_arrays_not_validated` (an array of structured buffers was not
+    looked at; repaired by /repo d99f90e) and `typedef_buffer_array_not_validated` (what d99f90e left:
+    `typedef StructuredBuffer<S> A[2]; A g[3];` = `Array(Modifier(const, Array(Object)))`; repaired by /repo bdddd35):
+    arrays of structured buffers — as the model saw them then, and as the type checker really builds them
+    (`Array(Modifier(const, Object))`) —, of one and two dimensions, typedef'd arrays with and without further
+    dimensions and modifiers between all layers are rejected with the true sizes (12 vs 16 bytes) -/
 example :
     checkLayout ⟨[⟨.array (.object "StructuredBuffer" (some ⟨0, sF⟩)), "g"⟩], []⟩ = .mismatch 0 ⟨12, 4⟩ ⟨16, 8⟩ ∧
     checkLayout ⟨[⟨.array (.modifier (.object "StructuredBuffer" (some ⟨0, sF⟩))), "g"⟩], []⟩ = .mismatch 0 ⟨12, 4⟩ ⟨16, 8⟩ ∧
     checkLayout ⟨[⟨.array (.array (.modifier (.object "RWStructuredBuffer" (some ⟨0, sF⟩)))), "g"⟩], []⟩
       = .mismatch 0 ⟨12, 4⟩ ⟨16, 8⟩ ∧
     checkLayout ⟨[⟨.modifier (.array (.object "StructuredBuffer" (some ⟨0, sF⟩))), "g"⟩], []⟩ = .mismatch 0 ⟨12, 4⟩ ⟨16, 8⟩ ∧
-    Direct "RWStructuredBuffer" ⟨0, sF⟩ (.array (.array (.modifier (.object "RWStructuredBuffer" (some ⟨0, sF⟩))))) :=
-  ⟨by decide, by decide, by decide, by decide, .plain (.arr (.arr (.base .mod)))⟩
+    checkLayout ⟨[⟨.array (.modifier (.array (.object "StructuredBuffer" (some ⟨0, sF⟩)))), "g"⟩], []⟩
+      = .mismatch 0 ⟨12, 4⟩ ⟨16, 8⟩ ∧
+    checkLayout ⟨[⟨.array (.modifier (.array (.modifier (.array (.object "StructuredBuffer" (some ⟨0, sF⟩)))))), "g"⟩], []⟩
+      = .mismatch 0 ⟨12, 4⟩ ⟨16, 8⟩ ∧
+    unstacked (.array (.modifier (.array (.modifier (.array (.object "StructuredBuffer" (some ⟨0, sF⟩))))))) = true ∧
+    (bufferElem (.array (.modifier (.array (.object "StructuredBuffer" (some ⟨0, sF⟩)))))).map
+      (fun p => (p.1, p.2.id)) = some ("StructuredBuffer", 0) ∧
+    wf sF = true ∧ ¬ Agree sF := by
+  decide
 
 /-- a typed load whose type argument still depends on a template parameter (`T`, `T[2]`) is skipped, wherever it
     stands; the first concrete failure is still reported -/
@@ -443,7 +440,7 @@ example :
         exact ht.symm
     intro r r' h h' _
     rw [key r h, key r' h']
-  · exact .buffer _ (List.mem_singleton.2 rfl) "StructuredBuffer" (by decide) (.plain (.arr (.base .mod)))
+  · exact .buffer _ (List.mem_singleton.2 rfl) "StructuredBuffer" (by decide) rfl rfl
 
 end collection
 
